@@ -1062,11 +1062,10 @@ class Node(object):
                 for x in self.childNodes:
                     node.append(x.cloneNode(deep))
         else:
+            # A shallow clone has no children (DOM Level 2): appending the
+            # original's children would move them out of the original
             if node.attributes is not None and self.attributes is not None:
                 node.attributes.update(self.attributes)
-            if self.hasChildNodes():
-                for x in self.childNodes:
-                    node.append(x)
         return node
 
     def normalize(self, charsubs=None):
